@@ -25,7 +25,7 @@ CONTRACTS = [
         "#[cfg_attr(kani, kani::ensures(|_r| self.0.load(std::sync::atomic::Ordering::Relaxed)))]",
     ]),
     ("src/collection/utils.rs", "pub fn ordered_contains_duplicates(l: &[&dyn RawLock]) -> bool {", [
-        "#[cfg_attr(kani, kani::requires(l.len() <= 4))]",
+        "#[cfg_attr(kani, kani::requires(l.len() <= 6))]",
         "#[cfg_attr(kani, kani::ensures(|r: &bool| *r == crate::verif::contracts::has_adjacent_dup(l)))]",
     ]),
 ]
